@@ -231,7 +231,7 @@ pub fn plan(property: &str) -> Option<CheckPlan> {
             ],
             real: N_REAL.to_vec(),
             stubbed: N_STUB.to_vec(),
-            items: vec![PlanItem { family: &nsim::reconnect::RECONNECT, quick: 432, thorough: 28_800 }],
+            items: vec![PlanItem { family: &nsim::reconnect::RECONNECT, quick: 504, thorough: 33_600 }],
         }),
         "C13" => Some(CheckPlan {
             property: "C13",
